@@ -26,7 +26,8 @@ EXPLANATION = (
     "job_id IN ids). R12.5 child links come from the children relationship "
     "joined parent-side/child-side correctly and every span field is copied "
     "from the row's field of the same name. R12.6 every row of the query is "
-    "yielded (no limit, no condition).")
+    "yielded (no limit, no condition)."
+    " Added: stream variables are identified by how they are bound; a broken trace is skipped without ending the stream and never re-yields the previous trace; R12.6 every row is yielded.")
 TRUSTED = ["builder-method semantics table of sa/sqlabs.py",
            "itertools.groupby semantics: a sub-iterator dies when its parent "
            "advances; groups form only on consecutive equal keys"]
